@@ -101,5 +101,23 @@ def fai_query_induction():
     }
 
 
+def fai_query_no_panic():
+    q = fai_query_induction()
+    q.update({
+        "id": "O15.fai-query-arbitrary-record", "props": ["C15"],
+        "bound": "ARBITRARY fai record as an index file can supply it (any u64 position, line_bases >= 1, line_width >= 1 -- both NonZero) and ANY 0-based start: the offset arithmetic of fai::Record::query does not panic (every MIR overflow assert is a query)",
+        "assume": [],
+        "vars": {"k": (0, U64), "lbc": (1, U64), "lw": (1, U64), "pos": (0, U64)},
+        "steps": [fai_kernel("qa", "k")],
+        "goals": [],
+        "outputs": ["qa"],
+        "native_types": {"k": "u64", "lbc": "u64", "lw": "u64", "pos": "u64"},
+        "native_eval": 'println!("{}", kernel(pos, k, lbc, lw));',
+        "native_check": "let _ = kernel(pos, k, lbc, lw);",
+        "vectors": [{"k": 0, "lbc": 60, "lw": 61, "pos": 7}, {"k": 12345678, "lbc": 80, "lw": 81, "pos": 4242}],
+    })
+    return q
+
+
 def obligations():
-    return [rans_4x8_step(), rans_nx16_step(12), rans_nx16_step(10), fai_query_induction()]
+    return [rans_4x8_step(), rans_nx16_step(12), rans_nx16_step(10), fai_query_induction(), fai_query_no_panic()]
